@@ -29,6 +29,9 @@ type Report struct {
 	floors   []floor
 	loadInfo map[string]interface{}
 	notes    []string
+	// only: when set, obligations of other rules (and floors, counters) are dropped: used to run a
+	// shared rule family under a second property without its unrelated siblings
+	only map[string]bool
 }
 
 type floor struct {
@@ -42,6 +45,9 @@ func newReport(p *propDef, tier, verif string) *Report {
 }
 
 func (r *Report) add(status, rule, key, pos, detail string) {
+	if r.only != nil && !r.only[rule] {
+		return
+	}
 	k := rule + "|" + key
 	if r.seen[k] {
 		// duplicate key: keep the worst status
@@ -76,12 +82,20 @@ func (r *Report) check(cond bool, rule, key, pos, okDetail, failDetail string) b
 
 // need records a vacuity floor: the rule must have matched at least min instances.
 func (r *Report) need(what string, got, min int) {
+	if r.only != nil {
+		return
+	}
 	r.floors = append(r.floors, floor{what, got, min})
 }
 
 func (r *Report) note(s string) { r.notes = append(r.notes, s) }
 
-func (r *Report) set(k string, v interface{}) { r.analysed[k] = v }
+func (r *Report) set(k string, v interface{}) {
+	if r.only != nil {
+		return
+	}
+	r.analysed[k] = v
+}
 
 // ---- known findings ---------------------------------------------------------
 
